@@ -6,6 +6,7 @@ import Proofs.C11Visits
 import Proofs.C11OpLog
 import Proofs.C11Depth
 import Proofs.C11Special
+import Proofs.C11Reuse
 /-!
 # C11 — input bookkeeping: NR, FNR, FILENAME, operands, getline, ranges, next, exit
 
@@ -368,6 +369,66 @@ theorem getline_var_keeps_nf (s : St) (v : Nat) : (doGetlineVar s v).nf = s.nf :
   rw [hn] at h
   cases t <;> exact h.2
 
+/-! ## histories: ONE interpreter, several executions (`interp.New` once, `Execute` / `ExecuteContext` repeatedly)
+
+`runAll` threads the machine state through the executions: `resetCore` and `setExecuteConfig` run on whatever the previous
+execution left. The property's quantifier ranges over histories; these theorems move every statement above to every
+execution of every history. -/
+
+/-- **history_is_fresh_runs.** The flat specification of a sequence of executions on one interpreter is, execution by
+execution, the flat specification of that execution from the INITIAL bookkeeping state (`freshStart`: NR = FNR = 0, no
+FILENAME, empty `$0`, operand cursor at ARGV[1], no input seen, no scanner, no getline stream, exit status 0, call depth 0 — and
+all range flags clear, which `run` sets up itself). Of the state `s` the earlier executions left, only the variables are
+visible (`carried s e`: global scalars, FS, ARGV beyond the new operands; nothing after `ResetVars`). For every program, every
+previous state, every list of executions. -/
+theorem history_is_fresh_runs (fuel : Nat) (p : Prog) (s : St) (e : Exec) (es : List Exec) :
+    runAll fuel p s (e :: es) =
+      run fuel p (freshStart s.varNames e (carried s e)) ::
+        runAll fuel p (run fuel p (freshStart s.varNames e (carried s e))).2 es ∧
+    s.startNext e = freshStart s.varNames e (carried s e) :=
+  ⟨runAll_cons fuel p s e es, startNext_eq_freshStart s e⟩
+
+/-- … in closed form when every execution is preceded by `ResetVars`: the history is the list of the standalone runs -/
+theorem history_with_resetVars (fuel : Nat) (p : Prog) (s : St) (es : List Exec) (h : ∀ e ∈ es, e.resetVars = true) :
+    runAll fuel p s es = es.map fun e => run fuel p (freshStart s.varNames e {}) :=
+  runAll_resetVars fuel p es s h
+
+/-- **execution_starts_afresh.** The state in which any execution starts satisfies every initial-state hypothesis used by
+the theorems of this file (whatever variables are carried and whatever `Config.Vars` assign), `$0` is empty with NF = 0, and
+its operands are exactly the new operand list. -/
+theorem execution_starts_afresh (names : List Bytes) (e : Exec) (c : Carried) :
+    Initial (freshStart names e c) ∧ Fresh (freshStart names e c) ∧ FreshWalk (freshStart names e c) ∧
+    (freshStart names e c).visits = [] ∧ (freshStart names e c).depth = 0 ∧ (freshStart names e c).fnr = 0 ∧
+    (freshStart names e c).line = [] ∧ (freshStart names e c).nf = 0 ∧ (freshStart names e c).streams = [] ∧
+    operandsFrom (freshStart names e c).argv 1 ((freshStart names e c).argc - 1) = e.args := by
+  obtain ⟨h1, h2, h3, h4, h5, h6, h7, h8, h9, h10, h11, h12, h13, h14, h15, h16, h17, h18, -, -, -, -⟩ := freshStart_fields names e c
+  exact ⟨⟨h1, h3, h4, h5, h6, h7⟩, ⟨h8, h9, h10, h11, h12, h14⟩, ⟨h8, h9, h10, h11, h13⟩, h15, h16, h2, h17,
+    freshStart_nf names e c, h18, freshStart_operands names e c⟩
+
+/-- **every_execution (NR, exit status, ranges, operands).** In every history, for the `i`-th execution `e` and its result `r`:
+NR counts the records taken in THIS execution; the exit status is the last exit value of THIS execution (0 when it executed
+none); each range rule selects by the positional definition over the records that reached it in THIS execution (a range left
+open by an earlier execution is not open now); and — while the program has not edited ARGV / ARGC nor executed nextfile — the
+records taken plus those pending are the declarative stream of THIS execution's operand list over its own files and stdin
+(operand cursor, had-files decision and stdin fallback start anew). -/
+theorem every_execution (fuel : Nat) (p : Prog) (s : St) (es : List Exec) (i : Nat) (r : Bool × St) (e : Exec)
+    (hr : (runAll fuel p s es)[i]? = some r) (he : es[i]? = some e) :
+    (r.2.nr = r.2.iters + r.2.gl + r.2.glv ∧
+      ∀ tag nr fnr fn line nf vars ghost, Event.emit tag nr fnr fn line nf vars ghost ∈ r.2.out → nr = ghost) ∧
+    r.2.status = lastExit r.2.out ∧
+    (∀ j k, k < (history j r.2.visits).length →
+      (((history j r.2.visits).map (·.matched)).getD k false = true ↔ Selected ((history j r.2.visits).map Visit.be) k)) ∧
+    (r.2.walkEdited = false →
+      (takes2 r.2).reverse ++ pending2 r.2 = (streamSpec e.fs e.args false e.stdin).map dropName) := by
+  obtain ⟨names, c, rfl⟩ := runAll_get fuel p es s i r e hr he
+  obtain ⟨hI, -, hW, hV, -, -, -, -, -, hops⟩ := execution_starts_afresh names e c
+  obtain ⟨-, -, -, -, -, -, -, -, -, -, -, -, -, -, -, -, -, -, hfs, -, -, hstdin⟩ := freshStart_fields names e c
+  refine ⟨nr_counts fuel p _ hI, exit_status fuel p _ hI, fun j k hk => range_spec_machine fuel p _ hV j k hk, ?_⟩
+  intro hed
+  have h := filename_never_steers_input fuel p _ hW hed
+  rw [hops, hfs, hstdin] at h
+  exact h
+
 /-! ## non-vacuity -/
 
 private def w0 : St :=
@@ -461,5 +522,40 @@ example : Selected [(true, true), (false, false), (true, false), (false, false),
     intro k h1 h2
     have : k = 2 ∨ k = 3 := by omega
     rcases this with rfl | rfl <;> decide⟩
+
+/-- a history of three executions on one interpreter. The program: a range rule `/q/,/z/` (emit 1) and `/q/ { exit 3 }`.
+Execution 1 reads k1 (`p`, `q`): the range opens on record 2 and the run exits with status 3 in the middle of the operand list,
+NR = 2, `$0` = `q`. Execution 2 (after `ResetVars`) reads k2 (`a`, `b`, `c`): NO record is selected although the range was open
+— the result is the standalone run, status 0. Execution 3 has no operand: stdin (`x`, `q`) is read although execution 1 had
+file operands; the range opens on ITS `q`. … -/
+private def hp : Prog :=
+  ⟨[], [⟨.range (fun v => .val (v.line == [113])) (fun v => .val (v.line == [122])), some [.emit 1]⟩,
+        ⟨.pred (fun v => .val (v.line == [113])), some [.exit (some 3)]⟩], some [.emit 9]⟩
+
+private def he1 : Exec := { fs := w0.fs, stdin := [], args := [[107, 49], [118, 48, 61, 55], [107, 50]], resetVars := true }
+private def he2 : Exec := { fs := w0.fs, stdin := [[113]], args := [[107, 50]], resetVars := true }
+private def he3 : Exec := { fs := w0.fs, stdin := [[120], [113]], args := [], resetVars := true }
+
+/-- (1000, exit status, 1 = no error) followed by the traced actions (tag, NR, FNR, FILENAME, `$0`) -/
+private def showRun (r : Bool × St) : List (Nat × Nat × Nat × Bytes × Bytes) :=
+  (1000, r.2.status, (if r.1 then 1 else 0), [], []) :: r.2.out.reverse.filterMap fun
+    | .emit tag nr fnr fn line _ _ _ => some (tag, nr, fnr, fn, line)
+    | _ => none
+
+example : (runAll 100 hp w0 [he1, he2, he3]).flatMap showRun =
+    [(1000, 3, 1, [], []), (1, 2, 2, [107, 49], [113]), (9, 2, 2, [107, 49], [113]),
+     (1000, 0, 1, [], []), (9, 3, 3, [107, 50], [99]),
+     (1000, 3, 1, [], []), (1, 2, 2, [45], [113]), (9, 2, 2, [45], [113])] := by
+  decide +kernel
+
+/-- … and equals, element by element, the standalone runs (`history_with_resetVars` is not vacuous) -/
+example : ∀ e ∈ [he1, he2, he3], e.resetVars = true := by decide
+example : (runAll 100 hp w0 [he1, he2, he3]).flatMap showRun =
+    [he1, he2, he3].flatMap fun e => showRun (run 100 hp (freshStart w0.varNames e {})) := by
+  decide +kernel
+
+/-- without `ResetVars` the variable assigned by the operand `v0=7` of an earlier execution is still there — and nothing else -/
+example : (carried (run 100 ⟨[], [⟨.always, some [.emit 0]⟩], none⟩ (w0.startNext he1)).2 { he2 with resetVars := false }).vars = [[55]] := by
+  decide +kernel
 
 end GoawkModel.C11.Props
